@@ -625,6 +625,7 @@ class World:
         self._ignore_pauses = False
         self.event_logging = False  # virtualise the "_jade_event" logger per process and record what reaches *events.log files
         self.events_written = []  # (file, text, process, seq) of every record a FileHandler wrote to an *events.log file
+        self.events_logged = []  # (text, process, seq, handlers) of every record handed to the "_jade_event" logger
         self.event_file_reads = []  # (file, seq, process): an *events.log file opened for reading (consolidation)
         self.event_file_appends = []  # (file, seq, process): an *events.log file opened for appending outside logging
         self.job_event_factory = None  # f(job, phase) -> text of a structured event the fake job processes log
@@ -1636,6 +1637,22 @@ def install():
         return real_emit(self, record)
 
     _logging.FileHandler.emit = v_emit
+
+    # ... and what a process hands to the structured-event logger in the first place (stdlib logging.Logger, not JADE code)
+    real_call_handlers = _logging.Logger.callHandlers
+
+    def v_call_handlers(self, record):
+        vt = cur()
+        if vt is not None and self.name == _EVENT_LOGGER and vt.world.event_logging and not vt.dead:
+            try:
+                vt.world.evseq += 1
+                vt.world.events_logged.append((record.getMessage(), f"{vt.proc.name}:{vt.proc.kind}", vt.world.evseq,
+                                               len(self.handlers)))
+            except Exception:  # noqa: BLE001
+                pass
+        return real_call_handlers(self, record)
+
+    _logging.Logger.callHandlers = v_call_handlers
 
     # -- identity
     def v_hostname():
